@@ -28,25 +28,32 @@ Definition w_D : nat -> nat -> QI2 := kron qi2ops 2 (pauli_mat qi2ops qi2_i PX) 
 Lemma w_S_unitary : unitary qi2ops 2 w_S.
 Proof. split; apply meq_of_forallb; vm_compute; reflexivity. Qed.
 
-Definition w_check : bool :=
-  match mle_nij qi2ops 1 (req_canonical 1 false)
-                (process_ideal qi2ops qi2_i qi2_h 1 w_S (istrings mle_inputs 1) (req_canonical 1 false)) with
-  | Ok nij =>
-      match n_vec_from_data qi2ops 1 nij with
-      | Ok nv =>
-          forallb (fun i => forallb (fun j => keqb qi2ops (madj qi2ops w_D i j) (w_D i j)) (seq 0 4)) (seq 0 4)
-          && negb (keqb qi2ops (hs_inner qi2ops 4 (gradient qi2ops qi2_i 1 (mle_start qi2ops 1) nv) w_D)
-                               (dir_deriv qi2ops qi2_i 1 (mle_start qi2ops 1) nv w_D))
-          && keqb qi2ops (hs_inner qi2ops 4 (mconj qi2ops (gradient qi2ops qi2_i 1 (mle_start qi2ops 1) nv)) w_D)
-                         (dir_deriv qi2ops qi2_i 1 (mle_start qi2ops 1) nv w_D)
-      | Err _ => false
-      end
-  | Err _ => false
-  end.
+Definition w_nij_res := mle_nij qi2ops 1 (req_canonical 1 false)
+  (process_ideal qi2ops qi2_i qi2_h 1 w_S (istrings mle_inputs 1) (req_canonical 1 false)).
+Definition w_nij : list ((instr * mstr) * QI2) :=
+  Eval vm_compute in match w_nij_res with Ok x => x | Err _ => [] end.
+Definition w_nv : list QI2 :=
+  Eval vm_compute in match n_vec_from_data qi2ops 1 w_nij with Ok x => x | Err _ => [] end.
 
-Lemma w_check_true : w_check = true.
+Lemma w_nij_eq : w_nij_res = Ok w_nij.
+Proof. vm_compute. reflexivity. Qed.
+Lemma w_nv_eq : n_vec_from_data qi2ops 1 w_nij = Ok w_nv.
 Proof. vm_compute. reflexivity. Qed.
 
+Definition w_G : nat -> nat -> QI2 := gradient qi2ops qi2_i 1 (mle_start qi2ops 1) w_nv.
+
+Lemma w_D_hermitian : hermitian qi2ops 4 w_D.
+Proof. apply meq_of_forallb. vm_compute. reflexivity. Qed.
+Lemma w_grad_wrong : hs_inner qi2ops 4 w_G w_D <> dir_deriv qi2ops qi2_i 1 (mle_start qi2ops 1) w_nv w_D.
+Proof. apply neq_of_keqb. vm_compute. reflexivity. Qed.
+Lemma w_grad_conj_right :
+  hs_inner qi2ops 4 (mconj qi2ops w_G) w_D = dir_deriv qi2ops qi2_i 1 (mle_start qi2ops 1) w_nv w_D.
+Proof. apply (proj1 (ui_eqb (o:=qi2ops) _ _)). vm_compute. reflexivity. Qed.
+
+(* F8: on the noiseless data of the S gate, at the starting point of pgdb, the matrix that
+   [_gradient] returns is NOT the gradient of the cost (its Hilbert-Schmidt inner product with
+   the Hermitian direction X (x) Y differs from the directional derivative); its complex
+   conjugate is. *)
 Theorem mle_gradient_refuted_w :
   exists nij nv,
     mle_nij qi2ops 1 (req_canonical 1 false)
@@ -58,16 +65,8 @@ Theorem mle_gradient_refuted_w :
     hs_inner qi2ops 4 (mconj qi2ops (gradient qi2ops qi2_i 1 (mle_start qi2ops 1) nv)) w_D
       = dir_deriv qi2ops qi2_i 1 (mle_start qi2ops 1) nv w_D.
 Proof.
-  pose proof w_check_true as H. unfold w_check in H.
-  destruct (mle_nij qi2ops 1 (req_canonical 1 false)
-             (process_ideal qi2ops qi2_i qi2_h 1 w_S (istrings mle_inputs 1) (req_canonical 1 false))) as [nij|e] eqn:E1;
-    [|discriminate H].
-  destruct (n_vec_from_data qi2ops 1 nij) as [nv|e] eqn:E2; [|discriminate H].
-  apply andb_true_iff in H as [H H3]. apply andb_true_iff in H as [H1 H2].
-  exists nij, nv. split; [first [reflexivity|exact E1]|]. split; [exact E2|]. split; [|split].
-  - apply meq_of_forallb. exact H1.
-  - apply neq_of_keqb. apply negb_true_iff. exact H2.
-  - apply (proj1 (ui_eqb (o:=qi2ops) _ _)). exact H3.
+  exists w_nij, w_nv. split; [exact w_nij_eq|]. split; [exact w_nv_eq|]. split; [exact w_D_hermitian|].
+  split; [exact w_grad_wrong|exact w_grad_conj_right].
 Qed.
 
 (* Ry with cos = 3/5, sin = 4/5: real, not symmetric *)
